@@ -83,7 +83,7 @@ func (m *Manager) onOpenScreen(p pk.Packet) error {
 	}
 	if _, ok := m.Screens[int(ContainerID)]; !ok {
 		TypeInt32 := int32(Type)
-		if TypeInt32 < 6 {
+		if TypeInt32 >= 0 && TypeInt32 < 6 {
 			Rows := TypeInt32 + 1
 			chest := Chest{
 				Type:  TypeInt32,
